@@ -51,6 +51,8 @@ pub enum Ret {
 pub enum Op {
     Handle { n: usize, types: u8, m: MKind, strategy: Option<Strat>, migration: Option<Mig>, strategy2: Option<Strat>, create: Option<Ret>, update: Option<Ret> },
     Restore,
+    /// restore in which a launch-only layer's SBOM files come back with its metadata file
+    RestoreSboms,
 }
 
 /// (launch, build, cache)
@@ -74,7 +76,7 @@ pub struct ResSpec {
 pub fn res_alphabet(full: bool) -> Vec<ResSpec> {
     if full {
         let mut v = Vec::new();
-        for md in 0..3 {
+        for md in 0..2 {
             for env in [None, Some(1u8), Some(2), Some(3)] {
                 for execd in 0..2 {
                     for sbom in 0..3 {
@@ -449,6 +451,7 @@ pub fn enabled_ops(snap: &Snapshot, nres: usize) -> Vec<Op> {
         }
     }
     out.push(Op::Restore);
+    out.push(Op::RestoreSboms);
     out
 }
 
@@ -461,6 +464,9 @@ pub struct St {
 pub fn step(snap: &Snapshot, op: &Op, results: &[ResSpec], verbose: bool) -> St {
     if *op == Op::Restore {
         return St { snap: restore(snap), bad: None };
+    }
+    if *op == Op::RestoreSboms {
+        return St { snap: restore_sboms(snap), bad: None };
     }
     let Op::Handle { n, types, m, .. } = op else { unreachable!() };
     let sc = Scratch::new("c02");
@@ -545,7 +551,17 @@ pub fn step(snap: &Snapshot, op: &Op, results: &[ResSpec], verbose: bool) -> St 
         let mut want = pre.clone();
         let mut judge = true;
         match &pred.layer {
-            PredLayer::Unspecified => judge = false,
+            PredLayer::Unspecified => {
+                judge = false;
+                // a failed call leaves the layer unspecified, with one exception: once content of the
+                // old layer has been deleted (Recreate / RecreateLayer under way), the old layer's
+                // metadata and SBOM files must be gone with it - otherwise the next build is shown
+                // valid-looking metadata for an emptied directory and may keep it
+                let deleted: Vec<String> = pre.files.0.keys().filter(|k| !post.files.0.contains_key(*k)).map(|k| String::from_utf8_lossy(k).to_string()).collect();
+                if !deleted.is_empty() && (post.toml.is_some() || !post.sboms.is_empty()) {
+                    bad = Some(("failed-recreate-kept-metadata-of-deleted-content".into(), format!("{ctxs}: the call failed after deleting {deleted:?} of the old layer, but the layer still has [{}]", post.describe())));
+                }
+            }
             PredLayer::Kept => {
                 if let Some(Ok(t)) = &mut want.toml {
                     t.types = want_types;
@@ -654,7 +670,7 @@ fn seed_ops() -> Vec<(&'static str, Vec<Op>)> {
         ("rich cached a + launch-only b, restored", vec![h(0, 1, MKind::V1, 1), h(1, 2, MKind::Generic, 3), Op::Restore]),
         ("cached a with legacy metadata, restored", vec![h(0, 0, MKind::Generic, 5), Op::Restore]),
         // the lifecycle brings a launch-only layer's toml AND its SBOM files back, not its directory
-        ("launch-only b with an SBOM, restored", vec![h(1, 2, MKind::Generic, 1), Op::Restore]),
+        ("launch-only b with an SBOM, restored", vec![h(1, 2, MKind::Generic, 1), Op::RestoreSboms]),
     ]
 }
 
@@ -712,13 +728,13 @@ pub fn run(args: &Args) {
     rep.cov("distinct_nontrivial", total_states.saturating_sub(5));
     rep.cov("max_depth", if args.thorough() { 3 } else { 2 });
     rep.cov("rule", "transitions = real handle_layer executions (scripted Layer impl) from distinct layers-dir snapshots, BFS from 5 seeded states built by real handle_layer calls; each judged for callbacks invoked (kind, order, count, arguments incl. LayerData vs disk, create on empty dir), result, on-disk layer vs callback result / kept state, returned LayerData vs an independent read, other layer untouched; distinct_nontrivial = distinct non-seed states");
-    rep.cov("bound", json!({"names": NAMES, "types": "4 (cache+build, cache+launch, launch-only, build-only)", "metadata types": ["Generic", "V1"], "strategy": "Keep/Update/Recreate/Err", "migration": "Recreate/Replace->strategy/Err", "create/update": "result alphabet + Err (+ trait default update)", "result alphabet": "7 representative (reduced) / 72 = 3 metadata x 4 env (None, all scopes incl. processes, build+launch+delim, process only) x 2 exec.d x 3 sbom sets (none, cdx, spdx+syft) (full)"}));
+    rep.cov("bound", json!({"names": NAMES, "types": "4 (cache+build, cache+launch, launch-only, build-only)", "metadata types": ["Generic", "V1"], "strategy": "Keep/Update/Recreate/Err", "migration": "Recreate/Replace->strategy/Err", "create/update": "result alphabet + Err (+ trait default update)", "result alphabet": "7 representative (reduced) / 48 = 2 metadata x 4 env (None, all scopes incl. processes, build+launch+delim, process only) x 2 exec.d x 3 sbom sets (none, cdx, spdx+syft) (full)"}));
     rep.cov("exhaustive", capped.is_none());
     if let Some(c) = capped {
         rep.cov("cap_hit", c);
     }
     rep.sample(json!({"seed": seed_ops()[3].0, "ops": seed_ops()[3].1}));
-    rep.assume("simulated lifecycle restore as in C01");
+    rep.assume("simulated lifecycle restore as in C01 (both variants: launch-only layers come back as their toml only, or as toml + SBOM files)");
     rep.assume("handle_layer's behaviour is a function of the layers directory and the Layer implementation (state = directory snapshot)");
     rep.finish();
 }
